@@ -136,6 +136,11 @@ class Report:
                 self.errors.append(f'{ob.id}: {ob.detail}'); continue
             if ob.status == INCONCLUSIVE:
                 self.undecided.append(ob); continue
+            if ob.status == REFUTED and changed and ob.backend in ('ast-dataflow', 'syntactic-dataflow') and not (isinstance(ob.replay, dict) and ob.replay.get('confirmed')) and self.standins_clean():
+                # a SYNTACTIC pattern no longer matches the (changed) function text, no input fails natively and every native stand-in of this check ran without a failure: the clause is undecided by
+                # this contract (the pattern has to be re-stated), it is not reported as a violation of the property
+                ob.status = UNKNOWN; ob.detail = f'syntactic pattern no longer matches the changed function; the {len(self.bounded)} native stand-in(s) of this check found no failing input. ' + str(ob.detail)[:300]
+                self.undecided.append(ob); continue
             if ob.status == REFUTED or (ob.status == UNKNOWN and changed and ob.id in self.lock):
                 rp = ob.replay if isinstance(ob.replay, dict) else {}
                 confirmed = bool(rp.get('confirmed'))
@@ -143,6 +148,11 @@ class Report:
                 self.violations.append((ob, path, confirmed))
             else:
                 self.undecided.append(ob)
+    def standins_clean(self):
+        """at least one bounded native stand-in ran in this check, with cases, and none of them reported a failure"""
+        b = [x for x in self.bounded if isinstance(x, dict)]
+        return bool(b) and all(int(x.get('failures', x.get('fails', 0)) or 0) == 0 for x in b) and any(int(x.get('cases', 0) or 0) > 0 for x in b) \
+               and not any(o.backend == 'bounded-native' and o.status == REFUTED for o in self.obs)
     def finish(self, checker_cmd=None):
         self.classify()
         wall = time.time() - self.t0
